@@ -181,9 +181,12 @@ package client
 //@ props C13 C11:lock
 
 // q hands the request to the sender goroutine: at most one message, and only this one, is put
-// on the modify channel.
+// on the modify channel - and only after its operations were registered as pending (or the failure
+// to do so was recorded as a send error): a result can then never arrive for an operation the
+// client does not know about.
 //@ unit Client.q
 //@ requires c != nil && c.qs != nil && held(c.awaiting) == 0
+//@ requires[registered-first] len(c.sendErr) > 0 || (forall i in 0..len(m.Operation) :: m.Operation[i].Id in dom(c.qs.pendq.Ops))
 //@ ensures[at-most-this] len(sent(c.qs.modifyCh)) == old(len(sent(c.qs.modifyCh))) || (len(sent(c.qs.modifyCh)) == old(len(sent(c.qs.modifyCh))) + 1 && sent(c.qs.modifyCh)[old(len(sent(c.qs.modifyCh)))] == m)
 //@ assigns sent(c.qs.modifyCh), recvd(c.sendExitCh)
 //@ props C13 C11:lock
